@@ -111,7 +111,7 @@ CHECKS = {
         "assumptions": ["'known name' means known to the registry being filtered", "Filter with empty options returns the receiver (documented)"],
     },
     "C11": {
-        "legs": legs_simple("props", "^TestC11$", 14, 16),
+        "legs": legs_with_mock("^TestC11$", 14, 16),
         "needs_cli": True,
         "rule": "rapid TOML documents (empty, unrelated sections incl. other lint names / global sections / nested tables, well-typed options for the configurable lints discovered at "
                 "run time, ill-typed shapes: scalar / array / array-of-tables / wrong field type / table for a scalar) x home objects of those lints, built CRLs, other corpus objects; "
